@@ -361,8 +361,19 @@ def applySwitch (av : IARF) (minSp : Nat) (g : SpGeom) : Nat :=
   | .ignore =>
     if decide (g.nextOrigCol ≥ g.origColEnd) && decide (g.origColEnd ≠ 0) then
       col + (g.nextOrigCol - g.origColEnd)
-    else if g.isVbraceOpen then g.nextOrigCol
+    -- Issue #1854 "preserve the position if virtual brace" -- since fix f9c391f only when that position lies to the right
+    else if g.isVbraceOpen && decide (g.nextOrigCol > col) then g.nextOrigCol
     else col
+
+/-- `applySwitch` as it was before fix f9c391f (kept for the witness that the old code could move `next` to the left of `pc`) -/
+def applySwitchOld (av : IARF) (minSp : Nat) (g : SpGeom) : Nat :=
+  match av with
+  | .ignore =>
+    if decide (g.nextOrigCol ≥ g.origColEnd) && decide (g.origColEnd ≠ 0) then
+      g.colAfter + (g.nextOrigCol - g.origColEnd)
+    else if g.isVbraceOpen then g.nextOrigCol
+    else g.colAfter
+  | av => applySwitch av minSp g
 
 /-- what the trailing-comment adjustment (lines 3771–3815) reads -/
 structure TrCmt where
